@@ -102,6 +102,7 @@ def conn_strategy(draw, i):
         'local_pre': draw(st.integers(0, 1)),
         'reasons': draw(st.lists(st.sampled_from(REASONS), min_size=1, max_size=2)),
         'gap': draw(st.integers(0, 3)),
+        'queued': draw(st.sampled_from([0, 0, 1, 2])),
         'sync': draw(st.sampled_from(SYNCS)),
         'arrival': draw(st.sampled_from(ARRIVALS)),
     }
@@ -139,7 +140,7 @@ def case_strategy(draw):
 
 def _base_conn(**kw):
     spec = {'dir': 'out', 'typ': 'P', 'obf': False, 'user': 0, 'start': 0, 'ending': 'none', 'end_at': 1, 'pre': 1,
-            'post': 0, 'local_pre': 0, 'reasons': ['REQUESTED'], 'gap': 0, 'sync': 'idle', 'arrival': 'data'}
+            'post': 0, 'local_pre': 0, 'reasons': ['REQUESTED'], 'gap': 0, 'queued': 0, 'sync': 'idle', 'arrival': 'data'}
     spec.update(kw)
     return spec
 
@@ -236,6 +237,7 @@ def _sanitise(case):
             'local_pre': _int(s.get('local_pre'), 0, 2),
             'reasons': reasons or ['REQUESTED'],
             'gap': _int(s.get('gap'), 0, 4),
+            'queued': _int(s.get('queued', 0), 0, 2),
             'sync': _pick(s.get('sync'), SYNCS),
             'arrival': _pick(s.get('arrival'), ARRIVALS),
         }
@@ -566,6 +568,13 @@ def _execute(case):
             reasons = spec['reasons']
             if ending == 'local':
                 def go():
+                    # messages queued (queue_message) and still pending when the disconnect is requested
+                    for k in range(spec.get('queued', 0)):
+                        try:
+                            conn.queue_message(traffic_msg(typ, 40 + k))
+                            notes['queued_pending'] = True
+                        except Exception as exc:
+                            notes['exceptions'].append(('queue_message', type(exc).__name__, repr(exc)))
                     spawn(guarded_disconnect(conn, reasons[0]))
                     if len(reasons) > 1:
                         notes['overlap'] = True
